@@ -596,20 +596,43 @@ func judgeScn(scn, dir string, steps []step, evs []event, portBase int) string {
 		return fmt.Sprintf("contents after restart match none of the %d admissible outcomes (e.g. %s); rows: %s", len(worlds), first, rowsText(rows))
 	}
 	// a lease that was acknowledged to a worker before the crash is still that worker's lease after the restart: right
-	// now (the leases of the history run 20 minutes) no leased message may be offered to anybody else
-	for _, rt := range [][2]string{{"/p", "pull"}, {"/f", fanTargets[0]}, {"/f", fanTargets[1]}} {
-		resp, err := a.Store.Dequeue(queue.DequeueRequest{Route: rt[0], Target: rt[1], Batch: 100, LeaseTTL: time.Second})
-		if err != nil {
-			a.Shutdown()
-			return "dequeue after restart failed: " + err.Error()
-		}
-		for _, e := range resp.Items {
-			k := rowKey(row{ID: e.ID, Route: e.Route, Target: e.Target, Payload: e.Payload}, matched)
-			if m := matched[k]; m != nil && m.State == "leased" {
-				a.Shutdown()
-				return fmt.Sprintf("message %s is leased to a worker (unexpired) but was offered again right after the restart", k)
+	// now (the leases of the history run 20 minutes) no leased message may be offered to anybody else. This is looked at
+	// on a COPY of the directory (second restart), because handing out leases here would change what the restarted
+	// store knows about outstanding leases before the redelivery check below.
+	{
+		dir2 := dir + "-now"
+		os.RemoveAll(dir2)
+		if err := copyDir(dir, dir2); err == nil {
+			a.Shutdown() // the copy was taken from a quiescent directory; boot the original again below
+			if a2, err := app.VerifBoot(app.VerifBootOptions{Dir: dir2, ConfigText: configTextFor(scn, portBase)}); err == nil {
+				for _, rt := range [][2]string{{"/p", "pull"}, {"/f", fanTargets[0]}, {"/f", fanTargets[1]}} {
+					resp, err := a2.Store.Dequeue(queue.DequeueRequest{Route: rt[0], Target: rt[1], Batch: 100, LeaseTTL: time.Second})
+					if err != nil {
+						a2.Shutdown()
+						return "dequeue after restart failed: " + err.Error()
+					}
+					for _, e := range resp.Items {
+						k := rowKey(row{ID: e.ID, Route: e.Route, Target: e.Target, Payload: e.Payload}, matched)
+						if m := matched[k]; m != nil && m.State == "leased" {
+							a2.Shutdown()
+							return fmt.Sprintf("message %s is leased to a worker (unexpired) but was offered again right after the restart", k)
+						}
+					}
+				}
+				a2.Shutdown()
+			}
+			os.RemoveAll(dir2)
+			a, err = app.VerifBoot(app.VerifBootOptions{Dir: dir, ConfigText: configTextFor(scn, portBase)})
+			if err != nil {
+				return "queue refuses to open a second time after the crash: " + err.Error()
 			}
 		}
+	}
+	// an idle poll while the old leases are still running (a consumer asking for a target nobody uses): it hands out
+	// nothing, but whatever the store decides to remember about "nothing to sweep" must not survive the lease expiry
+	if _, err := a.Store.Dequeue(queue.DequeueRequest{Route: "/p", Target: "verif-no-such-target", Batch: 1, LeaseTTL: time.Second}); err != nil {
+		a.Shutdown()
+		return "idle dequeue after restart failed: " + err.Error()
 	}
 	// offered for delivery again: once every lease has expired each unsettled message is dequeued exactly once
 	future := time.Now().Add(2 * time.Hour)
@@ -641,6 +664,29 @@ func judgeScn(scn, dir string, steps []step, evs []event, portBase int) string {
 		}
 	}
 	return ""
+}
+
+func copyDir(src, dst string) error {
+	if err := os.MkdirAll(dst, 0o755); err != nil {
+		return err
+	}
+	ents, err := os.ReadDir(src)
+	if err != nil {
+		return err
+	}
+	for _, e := range ents {
+		if e.IsDir() {
+			continue
+		}
+		b, err := os.ReadFile(filepath.Join(src, e.Name()))
+		if err != nil {
+			return err
+		}
+		if err := os.WriteFile(filepath.Join(dst, e.Name()), b, 0o644); err != nil {
+			return err
+		}
+	}
+	return nil
 }
 
 func rowsText(rows []row) string {
